@@ -15,6 +15,7 @@ use super::try_sync_error::*;
 
 use std::fmt;
 use std::mem;
+use std::sync::atomic;
 #[cfg(not(desync_verif))]
 use std::sync::*;
 #[cfg(desync_verif)]
@@ -460,7 +461,9 @@ impl Scheduler {
         }));
 
         // Add our condition variable to the list of wakers scheduled for the queue
-        queue.core.lock().unwrap().wake_blocked.push(Arc::downgrade(&wakeup));
+        // (The 'rescheduled' flag starts out set so we try to claim the queue once before waiting: our own reschedule below might be the only one)
+        let rescheduled = Arc::new(atomic::AtomicBool::new(true));
+        queue.core.lock().unwrap().wake_blocked.push((Arc::downgrade(&wakeup), Arc::downgrade(&ready), Arc::clone(&rescheduled)));
         
         // Unsafe job with unbounded lifetime is needed because stuff on the queue normally needs a static lifetime
         let need_reschedule = {
@@ -479,8 +482,11 @@ impl Scheduler {
             let mut ready   = ready_mutex.lock().expect("Background job ready lock");
             
             while !*ready {
-                // Use the condition variable to wait for the wakeup
-                ready = wakeup.wait(ready).expect("Background job cvar wait");
+                // Use the condition variable to wait for the wakeup, unless the queue was rescheduled since we last tried to claim it
+                if !rescheduled.swap(false, atomic::Ordering::SeqCst) {
+                    ready = wakeup.wait(ready).expect("Background job cvar wait");
+                    continue;
+                }
 
                 // If we're woken up and the queue is idle, drain it until the result is available
                 if !*ready {
@@ -512,7 +518,7 @@ impl Scheduler {
 
         // Clean up the wakers from the queue (should at least free our one)
         mem::drop(wakeup);
-        queue.core.lock().unwrap().wake_blocked.retain(|waker| waker.strong_count() > 0);
+        queue.core.lock().unwrap().wake_blocked.retain(|(waker, _, _)| waker.strong_count() > 0);
 
         // Return the result
         final_result
